@@ -144,9 +144,17 @@ func init() {
 				for _, numGo := range []int{1, 2, 3} {
 					for _, prefix := range []string{"", "k0", "k1"} {
 						for _, choose := range []string{"all", "even", "odd"} {
-							for _, sinceMid := range []bool{false, true} {
-								layout, nvk, numGo, prefix, choose, sinceMid := layout, nvk, numGo, prefix, choose, sinceMid
-								e.do(fmt.Sprintf("layout%d/nvk%d/go%d/p%q/%s/since%v", layout, nvk, numGo, prefix, choose, sinceMid), func() (string, string) {
+							for _, sm := range []int{0, 1, 2} {
+								// sm 2: as sm 0, with Stream.MaxSize so small that every batch handed to Send is cut short
+								sinceMid, smallBatches := sm == 1, sm == 2
+								layout, nvk, numGo, prefix, choose := layout, nvk, numGo, prefix, choose
+								id := fmt.Sprintf("layout%d/nvk%d/go%d/p%q/%s/since%v", layout, nvk, numGo, prefix, choose, sinceMid)
+								if smallBatches {
+									id += "/maxsize200"
+								} else if e.j.Bool("maxsize_only", false) {
+									continue
+								}
+								e.do(id, func() (string, string) {
 									dir := freshDir(e.j)
 									defer removeAll(dir)
 									o := smallOpts(dir)
@@ -234,6 +242,9 @@ func init() {
 									st.NumGo = numGo
 									st.Prefix = []byte(prefix)
 									st.SinceTs = since
+									if smallBatches {
+										st.MaxSize = 200
+									}
 									if choose != "all" {
 										parity := byte(0)
 										if choose == "odd" {
